@@ -108,6 +108,10 @@ func (g *pgen) portionLit() string {
 		if g.chance(g.bad * 3) {
 			return gen.Pick(g.r, []string{"150%", "3/2", "1/0", "100.5%"})
 		}
+		if g.r.Intn(3) == 0 {
+			// big.Rat.SetString reads fraction parts with base 0: a leading 0 means octal
+			return gen.Pick(g.r, []string{"010/100", "007/008", "1/010", "01/02", "00/5", "1/00", "007.5%", "017/020", "09/10"})
+		}
 		return "1/2"
 	default:
 		d := 1 + g.r.Intn(12)
@@ -517,6 +521,21 @@ func genRepeatSource(r *rand.Rand) (Script, RunEnv) {
 		} else {
 			sc.Stmts = append(sc.Stmts, Stmt{K: "send", E: &Expr{K: "mon", A: &Expr{K: "asset", S: asset}, N: fmt.Sprint(amt)}, Src: &vs, Dst: &dst})
 		}
+	}
+	if r.Intn(3) == 0 {
+		// the same account as an UNBOUNDED source in another asset: its (zero) part can land in a
+		// repaid remainder while the account has tracked balances, but none for that asset
+		asset2 := gen.Pick(r, assetPool)
+		l := Source{K: "acct", E: accE(), Od: &Overdraft{K: "unbounded"}}
+		src := l
+		if r.Intn(2) == 0 {
+			src = Source{K: "max", E: &Expr{K: "mon", A: &Expr{K: "asset", S: asset2}, N: fmt.Sprint(r.Intn(3))}, S: &l}
+		}
+		vs := VSource{K: "src", S: &src}
+		dst := Dest{K: "acct", E: &Expr{K: "acct", S: gen.Pick(r, []string{"x", "y", "world"})}}
+		st := Stmt{K: "send", E: &Expr{K: "mon", A: &Expr{K: "asset", S: asset2}, N: fmt.Sprint(r.Intn(3))}, Src: &vs, Dst: &dst}
+		pos := r.Intn(len(sc.Stmts) + 1)
+		sc.Stmts = append(sc.Stmts[:pos], append([]Stmt{st}, sc.Stmts[pos:]...)...)
 	}
 	var bal string
 	switch r.Intn(5) {
